@@ -2571,10 +2571,14 @@ class Head(Expr):
 
     def _simplify_down(self):
         if isinstance(self.frame, Elemwise):
+            # Only row-aligned operands take part in the head; scalar
+            # operands (e.g. a reduction ``df.x.sum()``) are broadcast as is
             operands = [
                 (
                     Head(op, self.n, self.operand("npartitions"))
-                    if isinstance(op, Expr) and not isinstance(op, _DelayedExpr)
+                    if isinstance(op, Expr)
+                    and not isinstance(op, _DelayedExpr)
+                    and op.ndim > 0
                     else op
                 )
                 for op in self.frame.operands
@@ -2685,8 +2689,9 @@ class Tail(Expr):
 
     def _simplify_down(self):
         if isinstance(self.frame, Elemwise):
+            # Scalar operands (e.g. a reduction) are broadcast as is
             operands = [
-                Tail(op, self.n) if isinstance(op, Expr) else op
+                Tail(op, self.n) if isinstance(op, Expr) and op.ndim > 0 else op
                 for op in self.frame.operands
             ]
             return type(self.frame)(*operands)
